@@ -97,11 +97,19 @@ def run(chk):
                         wq = sorted((k for k in model.items if k[0].startswith(t + '--')), key=repr)
                         if gq != wq: return (f'{sname}#query == stored objects satisfying it', f'{[(labels[i], f) for i, f in hist]}: {sname}.query(type={t}) = {gq}, list model {wq}', {})
                 # the two stores give the same answer to filters on defaulted properties and on timestamps in another spelling (whatever the files look like)
-                for f in (Filter('revoked', '=', False), Filter('revoked', '!=', True), Filter('created', '=', '2020-01-01T00:00:00Z'), Filter('modified', '>=', '2020-01-01T00:00:00Z'),
+                for f in (Filter('type', '>', 'identity'), Filter('type', '<=', 'identity'), Filter('type', 'contains', 'dent'), Filter('type', '<', 'j'), Filter('id', 'contains', '0001-'), Filter('id', '>', 'identity--00000001'),
+                          Filter('id', '<=', 'identity--00000002-0000-4000-8000-000000000000'), Filter('id', '!=', 'identity--00000001-0000-4000-8000-000000000000'), Filter('type', '!=', 'identity'),
+                          Filter('revoked', '=', False), Filter('revoked', '!=', True), Filter('created', '=', '2020-01-01T00:00:00Z'), Filter('modified', '>=', '2020-01-01T00:00:00Z'),
                           Filter('modified', '>', '2020-01-01T00:00:00Z'), Filter('modified', '=', '2020-01-01T00:00:00.50Z')):
                     try: a = sorted((D.version_key(o) for o in mem.query([f])), key=repr); b = sorted((D.version_key(o) for o in fs.query([f])), key=repr)
                     except (TypeError, ValueError): continue
-                    reg = lambda ks: [k for k in ks if not k[0].startswith('x-vf-unreg')]          # (dictionary-kept custom content compares timestamps as text: the known finding)
+                    reg = lambda ks: [k for k in ks if not k[0].startswith('x-vf-unreg')] if f.property in ('created', 'modified') else ks          # (dictionary-kept custom content compares timestamps as text: the known finding)
+                    if f.property in ('type', 'id'):       # these have an obvious reference: the list model itself
+                        import operator as _op
+                        test = {'>': _op.gt, '<': _op.lt, '>=': _op.ge, '<=': _op.le, '!=': _op.ne, 'contains': lambda x, y: y in x}[f.op]
+                        wl = sorted((k for k in model.items if test(k[0].split('--')[0] if f.property == 'type' else k[0], f.value)), key=repr)
+                        for sn_, got_ in (('memory', a), ('filesystem', b)):
+                            if got_ != wl: return (f'{sn_}#query == stored objects satisfying it', f'{[(labels[i], f_) for i, f_ in hist]}: {sn_}.query({f}) = {got_}, list model {wl}', {})
                     if reg(a) != reg(b): return ('stores agree#query on a defaulted property or a respelled timestamp', f'{[(labels[i], f_) for i, f_ in hist]}: query({f}) gives {reg(a)} in memory and {reg(b)} on the filesystem', {})
                 # a stored object is found by an equality filter spelled exactly like its own timestamp -- dictionary-kept custom content included (text equality and
                 # instant equality agree there), whatever was added or examined before it
